@@ -815,6 +815,22 @@ def rule_R11(res, prog):
            any(m.get("k") == "mem" and m.get("f") == "version" for m in walk(b["term"].get("c") or {}))]
     if not sws:
         raise AnalysisBroken("C03.R11: switch over cert->version not found in parse_single_cert")
+    # parsers of certificates received from the peer: functions of the protocol layer that call psX509ParseCert on message bytes
+    wire_fns = [f for f in prog.functions.values() if f.relfile in ("matrixssl/hsDecode.c", "matrixssl/tls13Decode.c") and
+                any(c.get("fn") == "psX509ParseCert" for b, ln, c in f.calls())]
+    unguarded = []
+    for f in wire_fns:
+        g = False
+        for b in f.blocks:
+            t = b.get("term")
+            if t is not None and "c" in t:
+                for m in walk(t["c"]):
+                    if m.get("k") == "bin" and m["op"] == "!=" and (strip(m["l"]) or {}).get("f") == "version" and \
+                            (strip(m["r"]) or {}).get("k") == "int" and strip(m["r"])["v"] == K + 1:
+                        g = True
+        if not g:
+            unguarded.append(f.name)
+    wire_guarded = bool(wire_fns) and not unguarded
     n = 0
     for sw in sws:
         for sc in sw["succ"]:
@@ -844,12 +860,20 @@ def rule_R11(res, prog):
                     break
                 bid = b["succ"][0].get("b")
             ok = cv > K or err
+            if not ok and wire_guarded:
+                # configuration that loads old local roots: tolerated when every parser of certificates that arrive over the
+                # wire rejects versions other than K + 1
+                res.instance(rid, "parse_single_cert: version value %d accepted for local trust anchors; all %d wire parsers require version == %d" % (
+                    cv, len(wire_fns), K + 1), True)
+                continue
             f_ = None
             if not ok:
                 f_ = Finding(PROP, rid, fp.name, "certificate version %d accepted" % (cv + 1),
                              "%s:%s parse_single_cert(): the arm for version value %d (X.509 v%d) is not an error exit, but "
                              "psX509AuthenticateCert applies the basicConstraints CA test only to issuers with version > %d: such a "
-                             "certificate - even one that says CA:FALSE - can issue certificates" % (fp.relfile, sw["term"]["ln"], cv, cv + 1, K),
+                             "certificate - even one that says CA:FALSE - can issue certificates%s" % (
+                                 fp.relfile, sw["term"]["ln"], cv, cv + 1, K,
+                                 (" (the wire parsers %s do not require version == %d)" % (unguarded, K + 1)) if unguarded else ""),
                              file=fp.relfile, line=sw["term"]["ln"])
             res.instance(rid, "parse_single_cert: version value %d %s" % (cv, "refused" if err else "accepted (CA test applies)"), ok, finding=f_)
     res.floor(rid, 3)
